@@ -32,7 +32,7 @@ PROP = dict(
           "only for sorted data, 1-6 percentile arguments (uniform, next to the R8 break points, common levels, 0/1 and beyond), one "
           "case in six with strictly positive weights (Weight, Mean, Bounds only). Non-trivial = nu non-integer or >100 or an argument "
           "beyond 10 standard deviations (dist, beta: also a or b >50 or not a half-integer); n>=3 and non-constant first sample "
-          "(ttest, descr). One dist case in 800 first uses its inverse functions for 1100-1600 further probabilities (one object, many calls). Distinct = distinct case JSON (64-bit FNV), capped at 300000 per shard."),
+          "(ttest, descr). More than 6.5 sigma below the mean the normal CDF is compared relatively with the asymptotic tail series. One dist case in 800 first uses its inverse functions for 1100-1600 further probabilities (one object, many calls). Distinct = distinct case JSON (64-bit FNV), capped at 300000 per shard."),
     assumptions=[
         "math.Lgamma, math.Exp, math.Log, math.Log1p, math.Erfc, math.Sinh/Cosh of the Go standard library are accurate to a few ulp on normal-range arguments (used by the reference integrands); math/big is exact",
         "math.Log of go1.23.5 on amd64 is wrong for subnormal arguments (log_amd64.s: ln(5e-310) = -709.07, true -711.19); GeoMean is therefore checked only on samples whose minimum is a normal float64",
